@@ -178,6 +178,8 @@ def later_edits(y, inputs, kind, k, text=False):
 #                                 object is handed to a second operation afterwards)
 #   cat|<operand>[|swap][|keep]   cat_tree(current, operand) - or cat_tree(operand, current) with `swap`; <operand> says where the other tree
 #                                 comes from (CAT_OPERANDS)
+#   roundtrip|off=<k>[|file]      the SWC round trip with the writer's option id_offset=<k> (the id the first node is written with; the plain
+#                                 step writes with the default), through a text or - `file` - a file on disk
 #   query|<kind>                  a read-only use of the current tree between two operations (not an operation of the property: nothing is
 #                                 checked about it; it is there because a tree that has been looked at is still a well-formed tree, and the
 #                                 property quantifies over every call history)
@@ -282,7 +284,7 @@ def query(t, kind, rng):
     return None
 
 
-def apply_unary(op, cur, rng, info, legacy=False, objs=None):
+def apply_unary(op, cur, rng, info, legacy=False, objs=None, flags=()):
     """apply one one-tree operation with arguments drawn from rng; returns (result, position the root must keep | None), or None when the
     operation's own precondition does not hold for this tree (then nothing is called).
     `objs` (step flag `obj`): the transform OBJECTS of this pipeline, by step name - the operation is then carried out by the object an earlier
@@ -386,7 +388,19 @@ def apply_unary(op, cur, rng, info, legacy=False, objs=None):
             return None         # the pipeline's resampler was built for a much smaller tree
         y = tf(lambda a: L.IsometricResampler(a), spacing)(cur)
     elif op == "roundtrip":
-        y = L.Tree.from_swc(io.StringIO(cur.to_swc()))
+        off = next((int(f[4:]) for f in flags if f.startswith("off=")), None)
+        if off is None:
+            y = L.Tree.from_swc(io.StringIO(cur.to_swc()))
+        else:       # the round trip with the writer's own options: the id the first node is written with, and text / file as the medium
+            info["arg"] = {"id_offset": off, "via": "file" if "file" in flags else "text"}
+            if "file" in flags:
+                import os
+                import tempfile
+                with tempfile.TemporaryDirectory() as d:
+                    cur.to_swc(os.path.join(d, "t.swc"), id_offset=off)
+                    y = L.Tree.from_swc(os.path.join(d, "t.swc"))
+            else:
+                y = L.Tree.from_swc(io.StringIO(cur.to_swc(id_offset=off)))
     elif op == "compose":
         y = tf(lambda a: L.Transforms(L.Translate(1, 2, 3), L.RadiusReseter(1.25), L.TranslateOrigin()))(cur)
     elif op == "members":
@@ -513,6 +527,21 @@ class Pipeline(Suite):
                 case["comments"] = rand_comments(rng, nonempty=rng.random() < 0.8)
                 case["source"] = rng.choice(["", "neuron.swc", "/data/n 1.swc"])
             out.append(case)
+        # (5) the SWC round trip with the writer's options: to_swc lets the caller choose the id of the first node (0: ids as stored, the
+        #     default 1, any larger one) and the medium; every such file is one the reader accepts, so every one is a round trip of the
+        #     property. Alone, on the result of another operation, and followed by one (which starts from what the reader built).
+        for off_class in ["0", "0", "0", "1", "2", "small", "small", "large", "large"] * (1 if not big else 4):
+            for via in ("text", "file"):
+                off = {"small": rng.randint(3, 60), "large": rng.choice([1000, 65536, 2**24 + 1, 10**9])}.get(off_class) or int(off_class)
+                shape = gen.pick_shape(rng, k); k += 1
+                if shape in ("single", "two"):
+                    shape = "random"
+                tr = gen.tree_case(rng, rng.choice([2, 3, 5, 8, 13]), shape, numbering=rng.choice(["sorted", "root0", "root0"]), coords="dyadic", types="mixed")
+                tr["xyz"] = [[c / 16.0 for c in p] for p in tr["xyz"]]
+                rt = f"roundtrip|off={off}" + ("|file" if via == "file" else "")
+                ops = ([rng.choice(UNARY)] if rng.random() < 0.5 else []) + [rt] + ([rand_step(rng)] if rng.random() < 0.6 else [])
+                out.append({"class": f"roundtrip-options/off-{off_class}/{via}", "family": "roundtrip-options", "opt": f"off-{off_class}/{via}", "v": 2, "tree": tr, "ops": ops,
+                            "seed": rng.randrange(10**6)})
         return out
 
     def run(self, case):
@@ -562,7 +591,7 @@ class Pipeline(Suite):
                         info["arg"] = [node1, node2, rng.random() < 0.6]
                         y = L.cat_tree(t1, t2, node1, node2, translate=info["arg"][2])
                     else:
-                        r = apply_unary(base, cur, rng, info, legacy, objs if "obj" in flags or base == "members" else None)
+                        r = apply_unary(base, cur, rng, info, legacy, objs if "obj" in flags or base == "members" else None, flags)
                         if r is None:
                             continue
                         y, nosort_root = r
@@ -670,6 +699,8 @@ class Pipeline(Suite):
         wide = "/f64in" if any(any(c.split(":")[-1] in "xyzr" for c in st.get("wide_in", [])) for st in steps) else ""
         if case.get("family") == "reuse":
             return f"reuse/{case.get('pattern', '?')}{wide}"
+        if case.get("family") == "roundtrip-options":
+            return f"roundtrip-options/{case.get('opt')}"
         if case.get("family") == "edits":
             return f"edits/{case.get('origin')}/{case.get('edit')}/len{min(len(case['ops']), 4)}"
         return f"{case.get('family', 'random')}/len{min(len(case['ops']) // 3 * 3, 12)}{wide}"
